@@ -47,6 +47,9 @@ def generate(repo):
     # eligible: order of the exclusion reasons
     elig = fn_body(prj, 'eligible', g)
     if elig:
+        # an absent asserted_by (stored as JSON null) has no recorded actor: it is its own group
+        out.append('Definition unattributed_is_anonymous : bool := %s.\n' % (
+            'true' if re.search(r'asserted_by_key\s*\.\s*is_empty\(\)\s*\|\|\s*row\s*\.\s*asserted_by\s*\.\s*is_null\(\)', elig) else 'false'))
         reasons = re.findall(r'reject\("(\w+)"\)', elig)
         out.append('Definition eligible_reasons : list string := [%s].\n' % '; '.join(coq_string(r) for r in reasons))
     return g, ''.join(out)
